@@ -146,6 +146,12 @@ KNOWN = [
     ("cpp-factory-tag-redefined", r"cpp", r"^g\+\+: redefinition of .struct \w+Tag.",
      "c++: 'struct <P>Tag{};' and 'using <P>MessageFactory' are emitted once per match KEY of a packet (cpp_generator.go:127-131): two match fields on different keys redefine them (sibling of finding factory-shared-by-match-fields)",
      "key-0", "two-match"),
+    ("cpp-copy-of-unique-ptr-holder", r"cpp", r"^g\+\+: use of deleted function .*(operator=\(const \w+&\)|unique_ptr<)",
+     "c++: the emitted test fills an object member with 'x.m = var;' (cpp_generator.go:567): a struct with a match member (std::unique_ptr) cannot be copy-assigned, so the test file does not compile (the C17 finding cpp-copy-of-unique-ptr-holder, here seen by g++ on the stubs)",
+     "det-nonroot-matches"),
+    ("cpp-nested-match-variable", r"cpp", r"^g\+\+: .\w+. was not declared in this scope",
+     "c++: generateMakeUniqueInstance / generateNewInstance of a nested packet (cpp_generator.go:573-592) never declare the payload variable of a match field that is not at the top level (the C17 finding cpp-nested-match-variable, here seen by g++ on the stubs)",
+     "det-shared-matching-payload"),
     ("cpp-redeclared-variable", r"cpp", r"^g\+\+: redeclaration of ", "c++: sample variables are named after the field (cpp_generator.go:545-557)", "rnd-0-1"),
     ("cpp-arrow-on-object-target", r"cpp", r"^g\+\+: base operand of .->. has non-pointer type",
      "c++: a length-of target that is an object is encoded with '->' (finding cpp-arrow-on-object-target, cpp_generator.go:229)", "len-2"),
